@@ -200,7 +200,7 @@ def run_leanchecker(st: "BuildStatus", prop_module: str):
         st.proofs_log += "\nleanchecker: " + out.strip()[-1500:]
 
 
-def lean_prepare(prop_module: str, theorems: list[str], _attempt: int = 0) -> BuildStatus:
+def lean_prepare(prop_module: str, theorems: list[str], _attempt: int = 0, extra_modules: tuple = ()) -> BuildStatus:
     """regenerate Generated/*, build the executable model, build the property's proofs,
     audit axioms.  Never raises on a failed build: the status says what broke."""
     st = BuildStatus(theorems=list(theorems))
@@ -236,11 +236,20 @@ def lean_prepare(prop_module: str, theorems: list[str], _attempt: int = 0) -> Bu
                 st.proofs_log = out[-6000:]
                 st.failed_modules = sorted(set(re.findall(r"✖ \[\d+/\d+\] Building (\S+)", out)))
                 st.failed_decls = sorted(set(re.findall(r"error: (\S+?\.lean:\d+:\d+)", out)))[:20]
+            # modules that belong to this property only (transcription anchors): built separately so that a
+            # broken anchor of another property's model never fails this property's build
+            for xm in extra_modules:
+                rc2, out2 = _run(["lake", "build", xm], cwd=LEAN_DIR)
+                if rc2 != 0:
+                    st.proofs_ok = False
+                    st.proofs_log += "\n" + out2[-3000:]
+                    st.failed_modules = sorted(set(st.failed_modules) | set(re.findall(r"✖ \[\d+/\d+\] Building (\S+)", out2)))
+                    st.failed_decls = sorted(set(st.failed_decls) | set(re.findall(r"error: (\S+?\.lean:\d+:\d+)", out2)))[:20]
         else:
             st.proofs_ok = False
         st.grep_hits = grep_forbidden()
         if st.proofs_ok and theorems:
-            src = (f"import Lean\nimport {prop_module}\n" + "\n".join(f"#print axioms {t}" for t in theorems) + "\n"
+            src = (f"import Lean\nimport {prop_module}\n" + "".join(f"import {xm}\n" for xm in extra_modules) + "\n".join(f"#print axioms {t}" for t in theorems) + "\n"
                    + GENDEP_PRELUDE + "\n".join(f"#gendeps {t}" for t in theorems) + "\n")
             tmp = os.path.join(LEAN_DIR, f".audit_{prop_module.split('.')[-1]}_{os.getpid()}.lean")
             open(tmp, "w").write(src)
@@ -282,7 +291,7 @@ def lean_prepare(prop_module: str, theorems: list[str], _attempt: int = 0) -> Bu
         except Exception:
             again = False
         if again and _attempt < 5:
-            return lean_prepare(prop_module, theorems, _attempt + 1)
+            return lean_prepare(prop_module, theorems, _attempt + 1, extra_modules)
     st.wall_s = time.time() - t0
     return st
 
@@ -362,6 +371,14 @@ def write_replay(prop: str, payload: dict) -> str:
     return p
 
 
+def _anchors_of(prop):
+    try:
+        import source_pins
+        return [f"{f}::{q}" for f, q in source_pins.ANCHORS.get(prop, [])]
+    except Exception:
+        return []
+
+
 def write_evidence(prop: str, tier: str, seed: int, st: BuildStatus, rep: Report, wall: float,
                    violations: int, checker_cmd: str, extra_assumptions: list[str] | None = None,
                    level: str = "proof", known_hits: int = 0, known_ids: list | None = None):
@@ -374,6 +391,7 @@ def write_evidence(prop: str, tier: str, seed: int, st: BuildStatus, rep: Report
         "theorems": st.theorems,
         "lean_build": {"generated_changed": st.gen_changed,
                        "generated_files_used_by_theorems": sorted({f for fs in st.gen_deps.values() for f in fs}),
+                       "transcription_anchors": _anchors_of(prop),
                        "translation_errors": st.gen_errors, "leanchecker": st.leanchecker, "model_ok": st.model_ok, "proofs_ok": st.proofs_ok,
                        "axioms_ok": st.axioms_ok, "forbidden_tokens": st.grep_hits,
                        "failed_modules": st.failed_modules, "wall_s": round(st.wall_s, 2)},
